@@ -1504,6 +1504,71 @@ def vec_model_tie(ctx, cases, stats):
     return cases
 
 
+# ------------------------------------------------------------------------------------------------
+# String constants of every byte class, in every position of the shared data segment
+# ------------------------------------------------------------------------------------------------
+
+STR_CLASSES = [
+    ("ascii", "zeta"), ("latin1-letter", "caf\u00e9"), ("latin1-letters", "\u00df\u00b5m"),
+    ("latin1-nonletter", "\u00d7\u00f7\u00a7"), ("nbsp", "a\u00a0b"), ("c1-control", "u\u0081v"),
+    ("three-byte", "\u65e5\u672c"), ("four-byte", "\U0001d538x"), ("ascii-tail", "omega9"),
+]
+
+
+def unicode_cases():
+    """One program per rotation step: every class is first, in the middle and last in some program.
+    Each constant is printed, concatenated with its neighbour, and compared (== / !=) with an equal
+    string built at run time from two pieces, and with a different string of the same length."""
+    out = []
+    n = len(STR_CLASSES)
+    for rot in (0, 3, 6):
+        order = STR_CLASSES[rot:] + STR_CLASSES[:rot]
+        body, exp, consts = [], [], []
+        for k, (cls, v) in enumerate(order):
+            body.append(f'    Process.println("{v}");'); exp.append(v); consts.append(v)
+        for k in range(n - 1):
+            a, b = order[k][1], order[k + 1][1]
+            body.append(f'    Process.println(Main.id("{a}") :: "|" :: Main.id("{b}"));'); exp.append(a + "|" + b)
+        for cls, v in order:
+            h = max(1, len(v) // 2)
+            l, r = v[:h], v[h:]
+            other = v[:-1] + ("q" if v[-1] != "q" else "r")
+            body.append(f'    Process.println(if Main.id("{l}") :: Main.id("{r}") == "{v}" {{ "eq" }} else {{ "ne" }});'); exp.append("eq")
+            body.append(f'    Process.println(if Main.id("{l}") :: Main.id("{r}") != "{v}" {{ "ne" }} else {{ "eq" }});'); exp.append("eq")
+            body.append(f'    Process.println(if Main.id("{other}") == "{v}" {{ "eq" }} else {{ "ne" }});'); exp.append("ne")
+            consts += [l, r, other]
+        body.append('    Process.println(Str.fromInt("12".toInt()) :: "\u00e9" :: Str.fromInt(3))'); exp.append("12\u00e93")
+        src = ("class Main {\n  function id(s: Str): Str = s\n  function main(): unit = {\n" + "\n".join(body) + "\n  }\n}\n")
+        out.append({"family": "unicode-constants", "src": src, "expect": exp, "end": "ok", "std": False, "both": True,
+                    "name": f"rotation {rot}", "consts": consts})
+    return out
+
+
+def dataseg_tie(ctx, cases, stats):
+    """`print_byte_vec` against Model/DataSeg.lean: the WAT literal of the shared string data segment
+    of the really compiled program must (1) assemble, (2) be exactly what the model prints for the
+    assembled bytes, (3) contain the UTF-8 bytes of every string constant of the program."""
+    lines = ["dataseg " + hexs(c["src"]) for c in cases]
+    try:
+        rc, impl, err = common.run_exec(common.harness_bin(PROP), [], lines)
+    except Exception as ex:
+        impl = []
+    if len(impl) != len(cases) or not all(a.startswith("lit ") for a in impl):
+        ctx.violation("dataseg protocol: the harness did not return the data segment literal",
+                      {"broken": "dataseg", "impl": impl[:3]}, no_input=True)
+        return
+    mlines = ["dataseg " + a[4:] + " " + " ".join(hexs(k) for k in c["consts"] if k) for a, c in zip(impl, cases)]
+    rc, model, err = common.run_exec(common.driver_bin(PROP), [], mlines)
+    for c, a, m in zip(cases, impl, model + ["<missing>"] * len(cases)):
+        stats["dataseg"] = stats.get("dataseg", 0) + 1
+        nk = len([k for k in c["consts"] if k])
+        if not (m.startswith("roundtrip=true ") and m.endswith(f"found={nk}/{nk}")):
+            ctx.violation(f"the string data segment of a compiled program is not byte-exact ({c['name']}): model check says `{m}` "
+                          f"(print_byte_vec must print one escape or one ASCII alphanumeric per byte, and every constant's bytes must be in the segment)",
+                          {"kind": "e2e", "protocol": "dataseg", "source": c["src"], "literal_hex": a[4:260], "model": m,
+                           "expected": c["expect"]})
+
+
 def e2e_case(rng):
     k = rng.below(100)
     if k < 14:
@@ -1743,7 +1808,9 @@ def run(ctx):
             break
     # end to end
     if have_exec and not ctx.violations:
-        e2e = tour_cases() + vec_model_tie(ctx, boundary_cases(), stats) + [e2e_case(rng.fork()) for _ in range(n_e2e)]
+        uni = unicode_cases()
+        dataseg_tie(ctx, uni + tour_cases(), stats)
+        e2e = tour_cases() + uni + vec_model_tie(ctx, boundary_cases(), stats) + [e2e_case(rng.fork()) for _ in range(n_e2e)]
         # one dedicated probe per open finding
         e2e.append({"family": "probe-F1", "src": PROBES_F1[0], "expect": ["2"], "sig_f1": True, "sig_f2": False})
         e2e.append(e2e_nat(rng.fork(), True))
